@@ -414,6 +414,20 @@ func checkC16(c *Ctx) {
 							r.CheckD(acc, "R16c-panic", fmt.Sprintf("%s %s(%s)", where, name, arg), c.P.Pos(x.Pos()),
 								"the plugin crashes instead of answering with CodeGeneratorResponse.error", map[string]any{"accepted_because": panicAccepted[where]})
 						}
+					case *ast.SelectorExpr:
+						// descriptor lookups by name/number return nil when nothing matches: a method called on the result
+						// without a nil test panics for a name that does not exist (a path variable with no matching field)
+						if inner, ok := ast.Unparen(x.X).(*ast.CallExpr); ok {
+							if isel, ok := inner.Fun.(*ast.SelectorExpr); ok {
+								switch isel.Sel.Name {
+								case "ByName", "ByNumber", "ByJSONName", "ByTextName":
+									if tv, ok := info.Types[inner]; ok && tv.Type != nil && strings.Contains(tv.Type.String(), "protoreflect.") {
+										key := fmt.Sprintf("%s calls .%s on the result of %s(…) without a nil test", c.enclosingFunc(pk, x.Pos()), x.Sel.Name, isel.Sel.Name)
+										r.Bad("R16c-nil", key, c.P.Pos(x.Pos()), "a protoreflect lookup returns nil when no element has that name or number; the chained call dereferences it: a definition that names a non-existing field (accepted by this plugin) crashes the plugin instead of being answered", nil)
+									}
+								}
+							}
+						}
 					case *ast.SliceExpr:
 						// x[:v] / x[v+1:] where v is the result of a search (strings.Index…): -1 when nothing is found
 						for _, be := range []ast.Expr{x.Low, x.High, x.Max} {
